@@ -78,6 +78,8 @@ typedef struct { size_t pos; size_t lo; size_t hi; } ApproxPos;
 typedef struct { size_t n; size_t stamp; } PGMType;     /* per-level index: only reached through the contract of search; stamp is ghost */
 typedef struct { uint8_t level; size_t idx; } DynIt;     /* iterator rendered as (level number, position); the container pointer is implicit */
 #define Item_tombstone PGMV_LIMITS_V_max
+typedef struct { K first; V second; } PairKV;             /* std::pair<K, V> of range()'s result */
+PGMV_DEF_VEC(PairKV)
 '''
 DYNIT = 'static inline DynIt DynIt_make(const Dyn *p, uint8_t level_number, size_t it) { (void)p; return (DynIt){level_number, it}; }\n'
 LAYOUT = ['struct:Item', 'vec:Item', 'vec:vec_Item', 'vec:PGMType', 'struct:Dyn', 'text:DYNIT']
@@ -88,5 +90,5 @@ def dinst(k, v):
     base = {'uint32_t': ('uint32_t', 'UINT32_MAX', '0'), 'uint64_t': ('uint64_t', 'UINT64_MAX', '0'), 'int64_t': ('uint64_t', 'INT64_MAX', 'INT64_MIN'),
             'int32_t': ('uint32_t', 'INT32_MAX', 'INT32_MIN')}
     return {'name': '%s_%s' % (k, v), 'defs': {'K': k, 'V': v, 'PGMV_LIMITS_K_max': base[k][1], 'PGMV_LIMITS_K_min': base[k][2], 'PGMV_LIMITS_V_max': base[v][1]}}
-F('Dyn_range', HPP, 'range', 'vec_PairKV Dyn_range(const Dyn *self, K lo, K hi)', ret='Vec<PairKV>', params={'lo': 'K', 'hi': 'K'}, local_vectors_grow=True,
-  must_fire=('throw', 'ternary_lvalue', 'resize_may_grow', 'std_upper_bound'))
+F('Dyn_range', HPP, 'range', 'vec_PairKV Dyn_range(const Dyn *self, K lo, K hi)', ret='Vec<PairKV>', params={'lo': 'K', 'hi': 'K'},
+  must_fire=('throw', 'ternary_lvalue', 'std_upper_bound'))
